@@ -202,12 +202,19 @@ CLASSES = {
             "[\"p\", \"q\", \"r\", \"s\", \"t\", \"u\", \"v\", \"w\", \"x\", \"y\"][{i}]", None, None),
     "dyn": ("dyn ::core::fmt::Debug", [("&'static dyn ::core::fmt::Debug", 1, False), ("&'a &'static dyn ::core::fmt::Debug", 2, False),
                                        ("&'a &'a &'static dyn ::core::fmt::Debug", 3, False)], "{i}u64 + 500", None, None),
+    # the trait object lives as long as the reference it sits behind (`&'a dyn Tr` is `&'a (dyn Tr + 'a)`)
+    "dyna": ("(dyn ::core::fmt::Debug)", [("&'a dyn ::core::fmt::Debug", 1, False), ("&'a (dyn ::core::fmt::Debug + 'a)", 1, False),
+                                            ("&'a &'a dyn ::core::fmt::Debug", 2, False)], "{i}u64 + 500", None, None),
     "box": ("::std::boxed::Box<u32>", [("::std::boxed::Box<u32>", 0, True), ("&'a ::std::boxed::Box<u32>", 1, False),
                                       ("&'a mut ::std::boxed::Box<u32>", 1, True)],
             "::std::boxed::Box::new({i}u32 + 200)", "**m = 777;", "::std::boxed::Box::new(777u32)"),
     "arr": ("[u8; 4]", [("[u8; 4]", 0, True), ("&'a [u8; 4]", 1, False), ("&'a mut [u8; 4]", 1, True)],
             "[{i}u8, 1, 2, 3]", "m[3] = 99;", "[{i}u8, 1, 2, 99]"),
 }
+# other spellings of the same field type (an alias defined next to the type, the qualified primitive): the target is one type
+RESPELL = {"u32": ["::core::primitive::u32", "U32a"], "&'a u32": ["&'a ::core::primitive::u32", "&'a U32a"],
+           "[u8; 4]": ["[::core::primitive::u8; 4]", "[u8; 4usize]", "Arr4a"], "&'a [u16]": ["&'a [::core::primitive::u16]"]}
+RESPELL_ITEMS = "pub type U32a = u32;\npub type Arr4a = [u8; 4];\n"
 RDECOYS = [("::core::marker::PhantomData<u8>", "::core::marker::PhantomData"),
            ("::core::marker::PhantomData<fn() -> u8>", "::core::marker::PhantomData"),
            ("bool", "true"), ("u64", "{i}u64"), ("()", "()"), ("::std::vec::Vec<u8>", "vec![{i}u8]")]
@@ -270,6 +277,11 @@ def rich_case(seed, k):
             if dm != d or not fields[d]["mutable"]:
                 ft, depth, m = rng.choice(cands)
                 fields[dm] = {"ty": ft, "depth": depth, "mutable": m, "cls": True}
+        for f in fields:
+            if f["cls"]:
+                f["base"] = f["ty"]
+                if f["ty"] in RESPELL and rng.random() < 0.35:
+                    f["ty"] = rng.choice(RESPELL[f["ty"]])
         rnames = rng.sample(["f0", "f1", "f2", "f3", "f4"], n) if rng.random() < 0.7 else ["f%d" % i for i in range(n)]
         for i, f in enumerate(fields):
             f["i"] = i
@@ -284,11 +296,18 @@ def rich_case(seed, k):
     # a fifth of the definitions are written by a macro_rules! macro: the field types reach the derive as `ty` fragments
     via_macro = rng.random() < 0.2
     margs = []
+    saved = []
     if via_macro:
         for v in variants:
             for f in v["fields"]:
-                margs.append(f["ty"])
-                f["ty"] = "$t%d" % (len(margs) - 1)
+                saved.append(f["ty"])
+                if f["ty"].startswith("&'a &") and rng.random() < 0.7:
+                    # the fragment sits between two reference layers: `&'a $t` with `$t = &'a dyn ..`
+                    margs.append(f["ty"][4:])
+                    f["ty"] = "&'a $t%d" % (len(margs) - 1)
+                else:
+                    margs.append(f["ty"])
+                    f["ty"] = "$t%d" % (len(margs) - 1)
 
     def fdecl(v, f, vis):
         marks = []
@@ -319,12 +338,14 @@ def rich_case(seed, k):
             body = "".join("        %s,\n" % fdecl(v, f, "") for f in v["fields"])
             vs.append("    %s %s\n%s    %s,\n" % (v["name"], "{" if v["named"] else "(", body, "}" if v["named"] else ")"))
         text = head + "pub enum Ty%s {\n%s}\n" % (decl, "".join(vs))
+    if "U32a" in text or "Arr4a" in text or any(m for m in margs if "U32a" in m or "Arr4a" in m):
+        text = RESPELL_ITEMS + text
     if via_macro:
         text = "macro_rules! mk { (%s) => {\n%s} }\nmk!(%s);\n" % (", ".join("$t%d:ty" % i for i in range(len(margs))), text, ", ".join(margs))
         k2 = 0
         for v in variants:
             for f in v["fields"]:
-                f["ty"] = margs[k2]
+                f["ty"] = saved[k2]
                 k2 += 1
 
     def ctor(v, written):
@@ -334,7 +355,7 @@ def rich_case(seed, k):
                 referent = val.format(i=f["i"] + 1)
                 if written and f["i"] == v["dm"]:
                     referent = after.format(i=f["i"] + 1)
-                exprs.append(rich_field_expr(f["ty"], f["depth"], f["mutable"], referent))
+                exprs.append(rich_field_expr(f.get("base", f["ty"]), f["depth"], f["mutable"], referent))
             else:
                 exprs.append(f["val"].format(i=f["i"] + 1))
         path = "Ty::%s" % v["name"] if kind == "enum" else "Ty"
